@@ -44,6 +44,8 @@ def planar_mesh(rng):
     else:
         v, t = gen.grid(int(rng.integers(2, 4)), int(rng.integers(2, 4)))
         v = v + np.column_stack([0.1 * rng.normal(size=(len(v), 2)), np.zeros(len(v))])
+    if rng.random() < 0.5:
+        t = gen.flip_some(rng, t, 0.5)        # mixed winding: derivatives of the linear interpolant do not depend on it
     return v, t
 
 
